@@ -66,6 +66,12 @@ CHECKS = {
             "successive matches before it, no wrap, count = repetition, failure leaves the cursor.",
             "Reference matcher trusted; F10 (word boundaries judged against the resumed suffix) is a known finding recognised by a "
             "second, suffix-context prediction; depth-limit runs discarded.", "3/C13"),
+    "C15": ("exploration", "property-based testing of :g/:v against a specification-style global over line identities (reference line editor)",
+            "Generated (buffer, range, pattern, negation, command lists with d, s, pu, a/i/c + text, relative addresses, | lists, nested "
+            "g) run by the real binary; text after the global must equal the reference (each pending line of the range visited once in "
+            "increasing order, inserted lines never), one u must restore the text before the global and a second u the command before it.",
+            "Reference line editor (models/lined.py) trusted, with documented calibrations (a line changed in place keeps its identity); "
+            "F23 is a known finding recognised by a resume-by-index variant of the reference.", "3/C15"),
 }
 
 ALL = ["C%02d" % i for i in range(1, 21)]
